@@ -9,6 +9,7 @@ import (
 	"errors"
 	"io"
 	"math"
+	"sync"
 	"time"
 
 	"github.com/milvus-io/milvus-proto/go-api/v2/commonpb"
@@ -78,10 +79,19 @@ type rStreams struct {
 	chans map[string]chan *msgstream.MsgPack
 	seeks map[string]*msgstream.MsgPosition
 	opens map[string]int // how many times a stream of the vchannel was opened
+	mu    sync.Mutex
+}
+
+func (s *rStreams) opened(vchannel string) int {
+	s.mu.Lock()
+	defer s.mu.Unlock()
+	return s.opens[vchannel]
 }
 
 func (s *rStreams) GetStreamChan(ctx context.Context, vchannel string, seek *msgstream.MsgPosition) (<-chan *msgstream.MsgPack, io.Closer, error) {
 	ch := make(chan *msgstream.MsgPack, 8)
+	s.mu.Lock()
+	defer s.mu.Unlock()
 	s.chans[vchannel] = ch
 	s.seeks[vchannel] = seek
 	if s.opens == nil {
